@@ -5,17 +5,6 @@ import (
 	"github.com/flowmatters/openwater-core/zzverif/vsym"
 )
 
-func c12nn(tag string) float64 {
-	v := vsym.Float64(tag)
-	vsym.Assume(v >= 0)
-	return v
-}
-
-func c12one(v float64) data.ND1Float64 {
-	a := data.NewArray1DFloat64(1)
-	a.Set1(0, v)
-	return a
-}
 
 const c12Abs = 1e-9
 const c12Rel = 1e-9
